@@ -1,6 +1,7 @@
 package types
 
 import (
+	"encoding/base64"
 	"fmt"
 	"reflect"
 	"strconv"
@@ -130,7 +131,13 @@ func ConvertToJSONSupportedValue(t interface{}) JSONValue {
 		return v
 	case *bool:
 		return *v
+	case []byte:
+		// the JSON encoding of a byte slice is a base64 string: that is what the other replicas get
+		return base64.StdEncoding.EncodeToString(v)
 	default:
+		if rv := reflect.ValueOf(t); rv.IsValid() && rv.Kind() == reflect.Slice && rv.Type().Elem().Kind() == reflect.Uint8 && !rv.IsNil() {
+			return base64.StdEncoding.EncodeToString(rv.Bytes()) // named byte slice types
+		}
 	}
 	return t
 }
